@@ -34,7 +34,8 @@ ASSUMPTIONS = [
     "but if it answers it must be the value of an expression carrying that name and must not answer when >=2 expressions carry it",
     "inner selects of subqueries / CTEs use a de-duplicating label style (DISAMBIGUATE_ONLY / TABLENAME_PLUS_COL) so the derived table has unique column names",
     "union rows are matched as a multiset by their positional values; lookups are then compared with the same row's positional values",
-    "text().columns(): positional form matches by position whatever the names; keyword (by-name) form requires the SQL names to match",
+    "text().columns(): positional form matches by position whatever the names; keyword (by-name) form requires the SQL names to match; text_loose = Table columns plus one keyword column "
+    "(name matching, one context column per SQL column): a column name the SQL returns twice must make its Column objects raise Ambiguous, a legacy tablename_colname match is tolerated either way",
     "only live SQLite (pysqlite reports column names exactly as written); the recording tier with upper-cased / truncated cursor.description names is not implemented",
 ]
 
@@ -107,7 +108,7 @@ class _Expr:
     __slots__ = ("obj", "fn", "names", "spec", "base_col", "kind", "tq", "label")
 
 
-def _build_exprs(world, fspecs, cspecs, voff=0):
+def _build_exprs(world, fspecs, cspecs):
     """returns (elements, resolved, joined FROM, base element, [_Expr])"""
     from sqlalchemy import func, literal, literal_column
 
@@ -487,9 +488,19 @@ def _sql_text(world, case):
 def _shape_text(world, case, classes, info):
     from sqlalchemy import Integer, column, text
 
+    shape = case["shape"]
+    if shape == "text_loose":
+        # one SQL column per distinct table column (a Table column may be given only once to text().columns())
+        resolved0 = _resolve_froms([dict(f, alias=(f["alias"] if f["alias"] != "anon" else "an")) for f in case["froms"]])
+        seen, cols = set(), []
+        for sp in case["cols"]:
+            ident = (resolved0[sp["e"] % len(resolved0)][0], sp["c"] % 4)
+            if ident not in seen:
+                seen.add(ident)
+                cols.append(sp)
+        case = dict(case, cols=cols)
     sql, fns, dnames, resolved = _sql_text(world, case)
     expected = [tuple(f(r) for f in fns) for r in range(1, NBASE + 1)]
-    shape = case["shape"]
     n = len(fns)
     info["raw_text_names"] = True
     if shape == "text_plain":
@@ -680,5 +691,5 @@ def _cases(draw):
 
 def subs(tier):
     return [
-        Generated("selects", check_select, strategy=_cases(), quick=10000, thorough=100000),
+        Generated("selects", check_select, strategy=_cases(), quick=5000, thorough=100000),
     ]
